@@ -707,6 +707,8 @@ pub fn component() -> BoxedStrategy<String> {
         1 => "[a-z]{1,2}[é漢]",
         1 => "\\.[a-z]{1,4}",
         1 => "[a-z]{1,3} [a-z]{1,3}",
+        // names that end in dots or consist of dots only (but are neither "." nor "..")
+        1 => proptest::sample::select(vec!["a.", "v1.", "x..", "...", "a.b.", ".a.", "...."]).prop_map(|s| s.to_string()),
         1 => proptest::sample::select(vec!["a", "a-b", "a.b", "a b", "ab", "A", "usr", "etc", "bin", "TRAILER!!!"]).prop_map(|s| s.to_string()),
     ]
     .boxed()
